@@ -22,7 +22,7 @@ pub async fn declaration(
             let DocumentCursor { doc, context, .. } = cursor;
             if let Some(entry) = context {
                 match &entry {
-                    GlobalEntry::Type(t) => {
+                    GlobalEntry::Type(_) => {
                         // early return for int;
                         if &ident.value == "int" {
                             return Ok(None);
@@ -32,7 +32,9 @@ pub async fn declaration(
                             if Entry::from(entry).is_default() {
                                 return Ok(None);
                             }
-                            let tokens = &doc.tokens[t.to_range()];
+                            // the name range is relative to the declaration of the entry,
+                            // not to the declaration that contains the cursor
+                            let tokens = &doc.tokens[entry.to_range()];
                             return Ok(Some(Location {
                                 uri,
                                 range: as_pos_range(&entry.to_text_range(tokens), &doc.text),
@@ -182,8 +184,10 @@ pub async fn implementation(
                             if entry.is_default() {
                                 return Ok(None);
                             }
-                            let tokens = &doc.tokens[p.to_range()];
-                            if let Entry::Procedure(_) = entry {
+                            if let Entry::Procedure(proc_entry) = entry {
+                                // the name range is relative to the declaration of the entry,
+                                // not to the declaration that contains the cursor
+                                let tokens = &doc.tokens[proc_entry.to_range()];
                                 return Ok(Some(Location {
                                     uri,
                                     range: as_pos_range(&entry.to_text_range(tokens), &doc.text),
